@@ -964,11 +964,16 @@ func repReach(from, to *ssa.BasicBlock, v ssa.Value, r int64) bool {
 // eval can decide are followed on the decided side only, all others both ways; boolean phis (the value
 // form of && and ||, as in `case a || b:`) are evaluated along the path from the edge taken.
 func reachUnder(from, to *ssa.BasicBlock, eval func(cond ssa.Value) (bool, bool)) bool {
+	return reachUnderVia(from, nil, to, eval)
+}
+
+// reachUnderVia is reachUnder for arriving at `to` over the edge via->to (via == nil: over any edge).
+func reachUnderVia(from, via, to *ssa.BasicBlock, eval func(cond ssa.Value) (bool, bool)) bool {
 	type edge struct{ b, prev *ssa.BasicBlock }
 	seen := map[edge]bool{}
 	var dfs func(b, prev *ssa.BasicBlock, vals map[ssa.Value]bool) bool
 	dfs = func(b, prev *ssa.BasicBlock, vals map[ssa.Value]bool) bool {
-		if b == to {
+		if b == to && (via == nil || prev == via) && !(prev == nil && via != nil) {
 			return true
 		}
 		if seen[edge{b, prev}] {
@@ -1186,14 +1191,19 @@ func (d *repDomain) valueSetOnEdge(v ssa.Value, at, to *ssa.BasicBlock, seen map
 	}
 	out := map[int64]bool{}
 	for r := range base {
-		if defBlock == nil || at == nil || defBlock.Parent() != at.Parent() || repReach(defBlock, at, v, r) {
-			if to != nil && len(at.Instrs) > 0 {
-				if ifi, ok := at.Instrs[len(at.Instrs)-1].(*ssa.If); ok && at.Succs[0] != at.Succs[1] {
-					if val, ok := repEvalCond(ifi.Cond, v, r); ok && (at.Succs[0] == to) != val {
-						continue
-					}
-				}
+		if defBlock == nil || at == nil || defBlock.Parent() != at.Parent() {
+			out[r] = true
+			continue
+		}
+		rr := r
+		ev := func(cond ssa.Value) (bool, bool) { return repEvalCond(cond, v, rr) }
+		if to != nil {
+			// the edge at->to itself must be passable (its branch may be decided by a boolean phi built
+			// from tests of the value: `valid := b == 0 || (2 <= b && b <= 36); if !valid { return }`)
+			if reachUnderVia(defBlock, at, to, ev) {
+				out[r] = true
 			}
+		} else if reachUnder(defBlock, at, ev) {
 			out[r] = true
 		}
 	}
